@@ -82,7 +82,7 @@ func main() {
 			}
 		}
 	}
-	core := progs("L", "T", "C", "X")
+	core := progs("L", "T", "C", "X", "Y")
 	wide := progs("L", "T", "C", "LL", "Lh", "TT", "CT", "CL", "XT")
 	two := []string{"a", "b", "c"}
 	bounds := map[string]any{"clock": "maximal progress (leases of live holders are renewed in time)"}
